@@ -3,7 +3,6 @@
 package cl
 
 import (
-	"errors"
 	"io"
 
 	"github.com/ohler55/slip"
@@ -97,38 +96,10 @@ func (f *Read) wrapRead(s *slip.Scope, r io.Reader, eofp bool, eofv slip.Object,
 			return code[0]
 		}
 	} else {
-		var (
-			code slip.Code
-			buf  []byte
-			pos  int
-			prev int
-		)
-		b := []byte{0}
-		for {
-			if n, err := r.Read(b); err != nil || n != 1 {
-				if err != nil && !errors.Is(err, io.EOF) {
-					panic(err)
-				}
-				break
-			}
-			buf = append(buf, b[0])
-			code, pos = readOne(s, buf)
-			if 0 < len(code) {
-				if prev == pos {
-					break
-				}
-				// Some types are only complete with a terminating
-				// character. If one of those types has been read then break
-				// out. Other like number ot symbols may or may not be
-				// complete.
-				switch code[0].(type) {
-				case slip.List, slip.String, *slip.Vector, *slip.Array:
-					return code[0]
-				}
-			}
-			prev = pos
-		}
-		if 0 < len(code) {
+		// The stream is not seekable so nothing read ahead can be given
+		// back. Feed the block reader one byte at a time, it stops with the
+		// byte that completes the first form.
+		if code, _ := slip.ReadStream(&byteReader{r: r}, s, true); 0 < len(code) {
 			return code[0]
 		}
 	}
@@ -138,13 +109,14 @@ func (f *Read) wrapRead(s *slip.Scope, r io.Reader, eofp bool, eofv slip.Object,
 	return eofv
 }
 
-func readOne(s *slip.Scope, buf []byte) (code slip.Code, pos int) {
-	defer func() {
-		if rec := recover(); rec != nil {
-			if _, ok := rec.(*slip.PartialPanic); !ok {
-				panic(rec)
-			}
-		}
-	}()
-	return slip.ReadOne(buf, s)
+// byteReader hands out the wrapped stream one byte per read.
+type byteReader struct {
+	r io.Reader
+}
+
+func (br *byteReader) Read(p []byte) (int, error) {
+	if len(p) == 0 {
+		return 0, nil
+	}
+	return br.r.Read(p[:1])
 }
